@@ -217,6 +217,38 @@ def run(ctx):
                     for inst in order + order:
                         body += utt(inst, "en" if inst == 1 else "fr", aud)
                     cases.append(("two-models-%s-%s-%d%d#%d" % (tag, aud, order[0], order[1], len(cases)), body + ["use 1", "free", "use 2", "free"]))
+        # long utterances streamed in ONE call, int16 and float32, on a fresh decoder and after a long full-utterance decode
+        # (which enlarges the cepstrum buffer for good); CMN state replaced before each
+        for enc in ("i16", "f32"):
+            for first in ("none", "gf2:i16", "gf2:f32", "silgf:i16"):
+                s = ["mark __case__"] + list(decmatrix.audio_defs()) + ["use 1", "init " + decmatrix.hx(json.dumps(cfg)),
+                     "jsgf " + decmatrix.hx("#JSGF V1.0;\ngrammar g;\npublic <s> = (go forward ten meters | go backward | stop)+;\n")]
+                if first != "none":
+                    a, e = first.split(":")
+                    s += ["cmn " + decmatrix.hx(CMN), "start", "feed %s 0 -1 %s 0 1" % (a, e), "end"]
+                s += ["cmn " + decmatrix.hx(CMN), "mark S:loop2:gf2-%s-onecall:long" % enc, "start", "feed gf2 0 -1 %s 0 0" % enc, "end",
+                      "result fin", "alignment fin", "free"]
+                cases.append(("long-after-batch-%s-%s#%d" % (enc, first.replace(":", "-"), len(cases)), s))
+        # a decoder configured with vocal-tract-length warping next to plain ones, created before / after it, alive or freed:
+        # the warp modules keep their parameters in process-wide variables
+        plain = dict(cfg)
+        for k, (wt, wp) in enumerate([("inverse_linear", "1.12"), ("affine", "1.1:0.05"), ("piecewise_linear", "1.2:3000")]):
+            warped = dict(cfg, warp_type=wt, warp_params=wp)
+            gl = "jsgf " + decmatrix.hx("#JSGF V1.0;\ngrammar g;\npublic <s> = (go | forward | ten | meters | stop | left)+;\n")
+
+            def utt(inst, tag):
+                return ["use %d" % inst, "cmn " + decmatrix.hx(CMN), "mark S:loop:mid:%s" % tag, "start", "feed mid 0 -1 i16 0 0", "end",
+                        "result fin", "alignment fin"]
+            head = ["mark __case__"] + list(decmatrix.audio_defs())
+            cases.append(("two-models-plain-only-%d#%d" % (k, len(cases)),
+                          head + ["use 1", "init " + decmatrix.hx(json.dumps(plain)), gl] + utt(1, "warp-plain") + ["use 1", "free"]))
+            cases.append(("two-models-warped-only-%d#%d" % (k, len(cases)),
+                          head + ["use 1", "init " + decmatrix.hx(json.dumps(warped)), gl] + utt(1, "warp-%d" % k) + ["use 1", "free"]))
+            cases.append(("two-models-warp-then-plain-%d#%d" % (k, len(cases)),
+                          head + ["use 1", "init " + decmatrix.hx(json.dumps(warped)), gl, "use 2", "init " + decmatrix.hx(json.dumps(plain)), gl]
+                          + utt(2, "warp-plain") + utt(1, "warp-%d" % k) + utt(2, "warp-plain") + ["use 2", "call reinitfeat 0 0"] + utt(2, "warp-plain")
+                          + ["use 1", "free", "use 3", "init " + decmatrix.hx(json.dumps(plain)), gl] + utt(3, "warp-plain")
+                          + ["use 2", "free", "use 3", "free"]))
         # asking the same question again, mid-utterance, at points where the first-best ends before the newest frame
         for n in (9000, 12000, 15000, 17000, 22000, 26000, 31000):
             s = ["mark __case__"] + list(decmatrix.audio_defs()) + ["use 1", "init " + decmatrix.hx(json.dumps(cfg)),
@@ -243,7 +275,7 @@ def run(ctx):
     shards = {}
     for eid, ch in fch:
         m = re.match(r"(?:tour|fresh|after-reset)-([vwxm])\b", eid)
-        shards.setdefault(m.group(1) if m else ("v" if eid.startswith("ask-again") else "m" if eid.startswith("throttle") else "w" if eid.startswith("ring-sweep") else "x" if eid.startswith("two-models") else "all"), []).append((eid, ch))
+        shards.setdefault(m.group(1) if m else ("v" if eid.startswith("ask-again") else "m" if eid.startswith("throttle") else "w" if eid.startswith("ring-sweep") else "x" if eid.startswith("two-models") else "w" if eid.startswith("long-after-batch") else "all"), []).append((eid, ch))
     if "all" in shards:
         shards = {"all": fch}
     fails = []
